@@ -244,6 +244,137 @@ class FailFamily(common.Family):
     return out['switches'] > 2 and out['counters'].get('fault:producer_raise', 0) > 0
 
 
+class AsyncFailFamily(FailFamily):
+  """The same on an AsyncIteratorQueue fed by coroutines (and threads).
+
+  Producers are coroutines on one event loop running
+  `async_enqueue_from_iterator` over async generators, mixed with threads
+  running `enqueue_from_iterator`; consumers are threads.  The queue counts its
+  enqueuers as they register (no max_enqueuer on this class), so every source
+  first waits until all producers have registered: a producer that registers
+  after the others are done is a different scenario.
+  """
+  name = 'afail'
+
+  def gen(self, rng, tier):
+    cfg = super().gen(rng, tier)
+    cfg['pool'] = False
+    cfg['stop_on_error'] = False
+    kinds = [rng.choice(['async', 'async', 'sync']) for _ in range(cfg['P'])]
+    if 'async' not in kinds:
+      kinds[rng.randrange(cfg['P'])] = 'async'
+    cfg['kinds'] = kinds
+    cfg['yield_between'] = rng.random() < 0.5
+    return cfg
+
+  def drive(self, cfg, sim):
+    import asyncio
+    import threading
+    import time
+    from concurrent import futures
+    from ml_metrics._src.utils import iter_utils
+
+    P, C, cap = cfg['P'], cfg['C'], cfg['cap']
+    pool = futures.ThreadPoolExecutor(max_workers=P + 2,
+                                      thread_name_prefix='aqpool')
+    q = iter_utils.AsyncIteratorQueue(cap, name='q', thread_pool=pool)
+    loop = asyncio.new_event_loop()
+    lt = threading.Thread(target=loop.run_forever, name='loop')
+    lt.start()
+    got = [[] for _ in range(C)]
+    ends = [None] * C
+    prod = [None] * P
+    reg = {'n': 0}
+
+    def fail_here(p, i):
+      if p == cfg['fail_p'] and i == cfg['fail_i']:
+        sim.count('fault:producer_raise')
+        raise _exc(cfg['fail_type'], 'injected')
+
+    def gen(p):
+      reg['n'] += 1
+      while reg['n'] < P:
+        time.sleep(0.001)
+      for i in range(cfg['items'][p]):
+        fail_here(p, i)
+        yield (p, i)
+      fail_here(p, cfg['items'][p])
+      if cfg['rets'][p]:
+        return ('ret', p)
+
+    class ASource:
+      def __init__(self, p):
+        self.p, self.i, self.started = p, 0, False
+
+      def __aiter__(self):
+        return self
+
+      async def __anext__(self):
+        if not self.started:
+          self.started = True
+          reg['n'] += 1
+          while reg['n'] < P:
+            await asyncio.sleep(0.001)
+        if cfg['yield_between']:
+          await asyncio.sleep(0)
+        p = self.p
+        fail_here(p, self.i)
+        if self.i >= cfg['items'][p]:
+          if cfg['rets'][p]:
+            raise StopAsyncIteration(('ret', p))
+          raise StopAsyncIteration()
+        self.i += 1
+        return (p, self.i - 1)
+
+    def produce(p):
+      try:
+        q.enqueue_from_iterator(gen(p))
+        prod[p] = ['ok']
+      except Exception as e:  # pylint: disable=broad-exception-caught
+        prod[p] = ['exc', type(e).__name__, str(e)]
+
+    afuts = {}
+    ps = []
+    starters = []
+    for p in range(P):
+      if cfg['kinds'][p] == 'async':
+        def start(p=p):
+          afuts[p] = asyncio.run_coroutine_threadsafe(
+              q.async_enqueue_from_iterator(ASource(p)), loop)
+        starters.append(start)
+      else:
+        t = threading.Thread(target=produce, args=(p,), name=f'prod{p}')
+        ps.append(t)
+        starters.append(t.start)
+    cs = [threading.Thread(target=_consumer, args=(q, cfg, c, got, ends),
+                           name=f'cons{c}') for c in range(C)]
+    starters += [t.start for t in cs]
+    _start_all(sim, starters)
+    for t in ps + cs:
+      t.join()
+    for p, f in afuts.items():
+      try:
+        f.result()
+        prod[p] = ['ok']
+      except Exception as e:  # pylint: disable=broad-exception-caught
+        prod[p] = ['exc', type(e).__name__, str(e)]
+    loop.call_soon_threadsafe(loop.stop)
+    lt.join()
+    loop.close()
+    pool.shutdown(wait=True)
+    return {'got': got, 'ends': ends, 'prod': prod, 'puts': [], 'gets': []}
+
+  def shrink(self, cfg):
+    for c in super().shrink(cfg):
+      if len(c.get('kinds', ())) != c['P']:
+        # a producer was dropped: drop its kind too (same index rule as items)
+        continue
+      yield c
+    for p, k in enumerate(cfg['kinds']):
+      if k == 'async' and cfg['kinds'].count('async') > 1:
+        c = copy.deepcopy(cfg); c['kinds'][p] = 'sync'; yield c
+
+
 class StopFamily(common.Family):
   """An external maybe_stop() / maybe_stop(exc) arrives at a drawn moment."""
   prop = 'C05'
@@ -561,5 +692,5 @@ class TimeoutFamily(common.Family):
     return out['now'] >= cfg['tau']
 
 
-FAMILIES = {'fail': FailFamily(), 'stop': StopFamily(),
+FAMILIES = {'fail': FailFamily(), 'afail': AsyncFailFamily(), 'stop': StopFamily(),
             'timeout': TimeoutFamily()}
